@@ -1,16 +1,16 @@
 -- REGENERATED from /repo by tools/extract on every run. Do not edit.
 namespace CaddyModel.Gen
 
-/-- caddy.go:run — the load path's phases, in source order -/
-def runPhaseOrder : List String := ["provisionContext", "provisionAdminRouters", "Start", "emitEvent:started", "finishSettingUp", "unsyncedStop"]
+/-- caddy.go:run — the events of the load path, call-inlined, in source order -/
+def runPhaseOrder : List String := ["provisionContext", "provisionAdminRouters", "cancelFunc", "restoreDefaultStorage", "restoreDefaultLogger", "app.Start", "app.Stop", "cancelFunc", "restoreDefaultStorage", "restoreDefaultLogger", "emitEvent:started", "finishSettingUp", "emitEvent:stopping", "app.Stop", "cancelFunc", "restoreDefaultStorage", "restoreDefaultLogger"]
 
-/-- caddy.go:unsyncedStop — event, app stops, module cleanup, in source order -/
-def unsyncedStopOrder : List String := ["emitEvent:stopping", "Stop", "cancelFunc"]
+/-- caddy.go:unsyncedStop — event, app stops, module cleanup -/
+def unsyncedStopOrder : List String := ["emitEvent:stopping", "app.Stop", "cancelFunc"]
 
-/-- caddy.go:Stop — unsyncedStop and every assignment to currentCtx, in source order -/
-def stopOrder : List String := ["unsyncedStop", "currentCtx=Context{}"]
+/-- caddy.go:Stop — call-inlined: the stop events and every assignment to currentCtx -/
+def stopOrder : List String := ["emitEvent:stopping", "app.Stop", "cancelFunc", "currentCtx=Context{}"]
 
-/-- caddy.go:Validate -/
+/-- caddy.go:Validate — call-inlined (run is atomic) -/
 def validateOrder : List String := ["run", "cancelFunc", "restoreDefaultStorage", "restoreDefaultLogger"]
 
 /-- caddytls TLS.Cleanup: where the successor tls app is looked up, and the condition under which one is assumed -/
